@@ -21,7 +21,7 @@ RULE = (
     "exclude_non_subsample x batch sizes; non-trivial = at least three candidates; distinct = distinct configuration tuples"
 )
 ASSUMPTIONS = [
-    "the single-annotator wrapper clause (sample order) is part of the C07 check",
+    "the single-annotator wrapper clause is evaluated with all labels missing and annotators=None (every chosen sample has all annotators available); its proof is Props/C07 annotWrapper_sample_order, the other C07 clauses are checked by C07",
     "parallel wrapper: equality of utilities is claimed for inner strategies that score candidates independently (list below); bit-exact where numpy performs the same operations, otherwise rtol 1e-9, atol 1e-12 (BLAS results depend on the chunk shape)",
 ]
 TRUSTED = ["recording proxy subclass around the inner strategy; spy on check_random_state in skactiveml.pool._wrapper (captures the choice draw)"]
@@ -331,6 +331,57 @@ def case_subsample(ctx, spec, rng, lines, checks):
                     f"sub-sampling wrapper around {spec.name}: {bad}", case)
 
 
+ANNOT_INNER = ["RandomSampling", "UncertaintySampling[least_confident]", "UncertaintySampling[entropy]", "ProbabilisticAL",
+               "QueryByCommittee[KL]", "CoreSet", "GreedyBALD"]
+
+
+def case_annot(ctx, spec, rng):
+    """Single-annotator wrapper clause: the samples appear in the returned pairs in the order in which the wrapped
+    strategy ranked them (its own query result, captured by the recording proxy).  All labels missing and
+    annotators=None, so every chosen sample has all annotators available and the statement applies without caveats."""
+    from skactiveml.pool.multiannotator import SingleAnnotatorWrapper
+
+    rng_state = rng.getstate()
+    nrs = np.random.RandomState(rng.randrange(2**31 - 1))
+    n, n_annot = rng.randint(4, 9), rng.randint(2, 4)
+    data = make_data(nrs, n, spec.kind, rng.choice(["random", "grid", "duplicates"]), n_labeled=0, classes=spec.classes or (0, 1, 2))
+    y2 = np.full((n, n_annot), np.nan)
+    naps = rng.choice([1, 1, 2, n_annot])
+    b = rng.choice([1, 2, 3, n, naps * 2, naps * 3])
+    seed = rng.randrange(10**6)
+    case = dict(wrapper="single-annotator", spec=spec.name, n=n, n_annotators=n_annot, n_annotators_per_sample=naps, b=int(b), seed=seed,
+                X=data["X"], y=y2, candidates=None, rng_state=[rng_state[0], list(rng_state[1]), rng_state[2]])
+    log = []
+    inner = make_proxy(spec.make(seed), log)
+    w = SingleAnnotatorWrapper(strategy=inner, random_state=seed)
+    kw = spec.kwargs(dict(data, y=np.full(n, np.nan)), seed)
+    ctx.count("annot_cases")
+    try:
+        with _pool.alarm(60), warnings.catch_warnings(), np.errstate(all="ignore"):
+            warnings.simplefilter("ignore")
+            pairs = w.query(data["X"], y2, batch_size=int(b), n_annotators_per_sample=naps, **kw)
+    except Exception as e:
+        ctx.case(("annot", spec.name, n, n_annot, naps, b, seed), True, sample=dict(case_summary(case), result=f"ERR {type(e).__name__}: {e}"))
+        ctx.count("annot_query_raised")   # C07's business
+        return
+    pairs = np.asarray(pairs)
+    if len(log) != 1 or pairs.ndim != 2:
+        ctx.count("annot_unexpected_shape")
+        return
+    inner_q = [int(i) for i in np.asarray(log[0]["out"][0] if isinstance(log[0]["out"], tuple) else log[0]["out"]).ravel()]
+    samples = [int(s_) for s_ in pairs[:, 0]]
+    order = [s_ for i, s_ in enumerate(samples) if i == 0 or s_ != samples[i - 1]]
+    ctx.case(("annot", spec.name, n, n_annot, naps, b, seed), len(order) >= 2,
+             sample=dict(case_summary(case), inner_ranking=inner_q, samples_in_returned_pairs=samples))
+    bad = None
+    if len(set(order)) != len(order):
+        bad = f"a sample is served in two separate groups: {samples}"
+    elif order != inner_q[:len(order)]:
+        bad = f"samples are served in the order {order}, the wrapped strategy ranked them {inner_q}"
+    if bad:
+        ctx.violate("C20/SingleAnnotatorWrapper.query/sample-order", f"single-annotator wrapper around {spec.name}: {bad}", case)
+
+
 def explore(ctx, n_par, n_sub):
     rng = ctx.rng
     specs = {s.name: s for s in pool_specs()}
@@ -341,10 +392,14 @@ def explore(ctx, n_par, n_sub):
     for name in SUB_INNER:
         for _ in range(n_sub):
             case_subsample(ctx, specs[name], rng, lines, checks)
+    for name in ANNOT_INNER:
+        for _ in range(max(2, n_sub // 2)):
+            case_annot(ctx, specs[name], rng)
     outs = vlib.run_driver(lines)
     for line, out, (case, impl) in zip(lines, outs, checks):
         if out.split() != impl.split():
             ctx.disagree("SkaModel.Core.Wrapper vs skactiveml.pool._wrapper", dict(case_summary(case), line=line[:1500]), out[:1500], impl[:1500])
+    ctx.notes["single_annotator_inner_strategies"] = ANNOT_INNER
     ctx.notes["parallel_inner_strategies"] = PAR_INNER
     ctx.notes["subsampling_inner_strategies"] = SUB_INNER
 
@@ -369,7 +424,10 @@ def replay(payload):
     ctx.rng.setstate((st[0], tuple(st[1]), st[2]))
     spec = [s_ for s_ in pool_specs() if s_.name == r["spec"]][0]
     lines, checks = [], []
-    (case_parallel if r["wrapper"] == "parallel" else case_subsample)(ctx, spec, ctx.rng, lines, checks)
+    if r["wrapper"] == "single-annotator":
+        case_annot(ctx, spec, ctx.rng)
+    else:
+        (case_parallel if r["wrapper"] == "parallel" else case_subsample)(ctx, spec, ctx.rng, lines, checks)
     for v in ctx.violations:
         print("REPRODUCED:", v["key"], "-", v["what"][:200])
     return 1 if ctx.violations else 0
